@@ -28,9 +28,31 @@ pub fn exec(line: &str) -> String {
             let mut b = ArrayBuilder::new(shape, DataType::UInt8, chunk.try_into().unwrap(), FillValue::from(0u8));
             b.chunk_key_encoding(enc);
             let array = match b.build(store.clone(), path) { Ok(a) => a, Err(_) => return "err".into() };
+            let via = m.get("via").map(|s| s.as_str()).unwrap_or("direct");
+            let form = m.get("form").map(|s| s.as_str()).unwrap_or("explicit");
+            let np0 = NodePath::new(path).unwrap();
+            let dims = |v: &str| format!("[{}]", vec![v; rank].join(","));
             let array = if via_meta {
                 array.store_metadata().unwrap();
                 zarrs::array::Array::open(store.clone(), path).unwrap()
+            } else if via == "v3json" {
+                // metadata written by hand: the separator given, left out, or an empty configuration (then the default of
+                // the encoding applies: `/` for default, `.` for v2)
+                let cke = match form { "omit" => format!("{{\"name\":\"{}\"}}", m["enc"]), "empty" => format!("{{\"name\":\"{}\",\"configuration\":{{}}}}", m["enc"]),
+                    _ => format!("{{\"name\":\"{}\",\"configuration\":{{\"separator\":\"{}\"}}}}", m["enc"], m["sep"]) };
+                let doc = format!("{{\"zarr_format\":3,\"node_type\":\"array\",\"shape\":{},\"data_type\":\"uint8\",\"chunk_grid\":{{\"name\":\"regular\",\"configuration\":{{\"chunk_shape\":{}}}}},\"chunk_key_encoding\":{},\"fill_value\":0,\"codecs\":[{{\"name\":\"bytes\"}}]}}", dims("4"), dims("1"), cke);
+                let s2 = Arc::new(MemoryStore::new());
+                zarrs::storage::WritableStorageTraits::set(&*s2, &meta_key_v3(&np0), doc.into_bytes().into()).unwrap();
+                match zarrs::array::Array::open(s2, path) { Ok(a) => a, Err(_) => return "err-open".into() }
+            } else if via == "v2json" {
+                // a Zarr V2 array: the `v2` encoding with the document's dimension_separator (`.` when absent)
+                let ds = if form == "absent" { String::new() } else { format!(",\"dimension_separator\":\"{}\"", m["sep"]) };
+                let doc = format!("{{\"zarr_format\":2,\"shape\":{},\"chunks\":{},\"dtype\":\"|u1\",\"compressor\":null,\"fill_value\":0,\"order\":\"C\",\"filters\":null{}}}", dims("4"), dims("1"), ds);
+                let s2 = Arc::new(MemoryStore::new());
+                zarrs::storage::WritableStorageTraits::set(&*s2, &meta_key_v2_array(&np0), doc.into_bytes().into()).unwrap();
+                let a = match zarrs::array::Array::open(s2.clone(), path) { Ok(a) => a, Err(_) => return "err-open".into() };
+                // also after the metadata was stored again and re-opened
+                if form != "absent" && a.store_metadata().is_ok() { match zarrs::array::Array::open(s2, path) { Ok(b) => b, Err(_) => return "err-reopen".into() } } else { a }
             } else { array };
             let key = array.chunk_key(&idx);
             let ks = key.as_str().to_string();
@@ -66,6 +88,23 @@ pub fn generate(tier: &str, seed: u64) -> Vec<String> {
         let path = rng.pick(&paths);
         let via = if rng.chance(1, 4) { "meta" } else { "direct" };
         out.push(format!("c11 key enc={} sep={} path={} idx={} via={}", enc, sep, path, nl(&idx), via));
+    }
+    // metadata written by hand: V3 documents with the separator given / left out / an empty configuration, V2 documents with
+    // either dimension_separator or none; the key must follow the document (the line carries the separator that applies)
+    for k in 0..(if thorough { 1200 } else { 240 }) {
+        let rank = 1 + (k % 3) as usize;
+        let idx: Vec<u64> = (0..rank).map(|_| rng.below(4)).collect();
+        let path = rng.pick(&paths);
+        if k % 2 == 0 {
+            let enc = if rng.chance(1, 2) { "default" } else { "v2" };
+            let form = *rng.pick(&["explicit", "omit", "empty"]);
+            let sep = if form == "explicit" { if rng.chance(1, 2) { "/" } else { "." } } else if enc == "v2" { "." } else { "/" };
+            out.push(format!("c11 key enc={} sep={} path={} idx={} via=v3json form={}", enc, sep, path, nl(&idx), form));
+        } else {
+            let form = *rng.pick(&["explicit", "explicit", "absent"]);
+            let sep = if form == "absent" { "." } else if rng.chance(1, 2) { "/" } else { "." };
+            out.push(format!("c11 key enc=v2 sep={} path={} idx={} via=v2json form={}", sep, path, nl(&idx), form));
+        }
     }
     // exhaustive small coordinates, all four encodings, ranks 0..3
     for enc in ["default", "v2"] { for sep in ["/", "."] { for path in ["/", "/a/b"] {
